@@ -340,6 +340,22 @@ def me9_one_metrics_object(ctx, rep):
     mt = bp.operand_term(stmt["rv"]["ops"][k], bb, si)
     fresh = mt[0] == "wrap" and mt[2][0] == "call" and mt[2][1][0] == b.path
     rep.check(fresh, R, "metrics-created-per-store", ctx.where(b, bb, si), "store.metrics := %s created in the constructor" % term_str(mt), "store.metrics := %s" % term_str(mt))
+    # every statically resolved metrics call lands in the counting implementation itself: a
+    # forwarding / blanket impl (`impl Metrics for Arc<M>`) that method probing finds first can
+    # leave a method on the trait's empty default and silently switch a counter off
+    impls = {}
+    for s_ in ctx.prog.sites():
+        if A.metric_call(s_) is None:
+            continue
+        r_ = s_.fn.get("resolved") or {}
+        if r_.get("ikind") != "item":
+            continue
+        impls.setdefault(r_.get("impl_adt") or r_.get("path") or "?", []).append(s_)
+    if impls:
+        main = max(impls, key=lambda k_: len(impls[k_]))
+        stray = sorted(k_ for k_ in impls if k_ != main)
+        rep.check(not stray, R, "metric-calls-resolve-to-the-counting-impl", impls[stray[0]][0].where if stray else "", "all %d statically resolved metrics calls resolve to %s" % (sum(len(v) for v in impls.values()), main),
+                  "metrics calls resolve to %s besides %s: a counter can end up on a trait default / forwarding impl" % (stray, main))
     cb, hits, _t = _dispatch_channel_site(ctx)
     if len(hits) == 1:
         from rules.queue import _metrics_given_to_queue
